@@ -79,11 +79,55 @@ def seal62 (typ : Int) (brand payload : Bytes) : Bytes :=
 /-- the characters `[>\n\r\t ]` of the frame regular expression -/
 def isFrameSpace (c : UInt8) : Bool := c == 62 || c == 10 || c == 13 || c == 9 || c == 32
 
-/-- ASCII white space as `strings.TrimSpace` sees it (bytes ≥ 0x80 never reach
-    the frame parser through the framed decoder: `toASCII` rejects them) -/
+/-- the ASCII white space of `strings.TrimSpace` (`asciiSpace`): `\t \n \v \f \r` and space -/
 def isTrimSpace (c : UInt8) : Bool := c == 9 || c == 10 || c == 11 || c == 12 || c == 13 || c == 32
 
-def trimSpace (b : Bytes) : Bytes := ((b.dropWhile isTrimSpace).reverse.dropWhile isTrimSpace).reverse
+/-- ASCII-only trimming: what `strings.TrimSpace` does on a string all of whose
+    bytes are below 0x80 (`trimSpace_eq_ascii` in Proofs/ArmorLemmas) — the
+    situation behind `toASCII`, which lets valid armor bytes through only -/
+def trimSpaceAscii (b : Bytes) : Bytes := ((b.dropWhile isTrimSpace).reverse.dropWhile isTrimSpace).reverse
+
+/-- the two-byte UTF-8 encodings of white space: U+0085 (`C2 85`), U+00A0 (`C2 A0`) -/
+def isSp2 (c d : UInt8) : Bool := c == 0xC2 && (d == 0x85 || d == 0xA0)
+
+/-- the three-byte UTF-8 encodings of `unicode.White_Space`: U+1680 (`E1 9A 80`),
+    U+2000…U+200A (`E2 80 80…8A`), U+2028/9 (`E2 80 A8/A9`), U+202F (`E2 80 AF`),
+    U+205F (`E2 81 9F`), U+3000 (`E3 80 80`) -/
+def isSp3 (c d e : UInt8) : Bool :=
+  (c == 0xE1 && d == 0x9A && e == 0x80) ||
+  (c == 0xE2 && d == 0x80 && ((0x80 ≤ e && e ≤ 0x8A) || e == 0xA8 || e == 0xA9 || e == 0xAF)) ||
+  (c == 0xE2 && d == 0x81 && e == 0x9F) ||
+  (c == 0xE3 && d == 0x80 && e == 0x80)
+
+/-- strip white-space runes from the front: an ASCII space byte, or a two- or three-byte
+    sequence recognised by `s2` / `s3`; stop at the first byte that starts neither
+    (in particular at any invalid UTF-8: `RuneError` is not a space) -/
+def trimRunes (s2 : UInt8 → UInt8 → Bool) (s3 : UInt8 → UInt8 → UInt8 → Bool) : Bytes → Bytes
+  | [] => []
+  | c :: r =>
+    if isTrimSpace c then trimRunes s2 s3 r
+    else match r with
+      | [] => [c]
+      | d :: r' =>
+        if s2 c d then trimRunes s2 s3 r'
+        else match r' with
+          | [] => [c, d]
+          | e :: r'' => if s3 c d e then trimRunes s2 s3 r'' else c :: d :: e :: r''
+
+/-- `strings.TrimLeftFunc(s, unicode.IsSpace)`: runes decoded from the left -/
+def trimLeft (b : Bytes) : Bytes := trimRunes isSp2 isSp3 b
+
+/-- `strings.TrimRightFunc(s, unicode.IsSpace)` on the *reversed* string: runes
+    decoded from the right (`utf8.DecodeLastRune`); the encodings above are
+    read backwards.  (Interior bytes of an encoding are continuation bytes and
+    its first byte is not, so `DecodeLastRune` finds exactly these sequences.) -/
+def trimRightRev (r : Bytes) : Bytes := trimRunes (fun c d => isSp2 d c) (fun c d e => isSp3 e d c) r
+
+/-- `strings.TrimSpace`: strips Unicode `White_Space` runes (UTF-8 decoded, from
+    the left at the front and from the right at the back) — the ASCII ones
+    (bytes 9–13, 32) and U+0085, U+00A0, U+1680, U+2000–U+200A, U+2028, U+2029,
+    U+202F, U+205F, U+3000.  Invalid UTF-8 is not white space. -/
+def trimSpace (b : Bytes) : Bytes := (trimRightRev (trimLeft b).reverse).reverse
 
 /-- `re.ReplaceAllString(m, " ")` for `[>\n\r\t ]+`: every maximal run becomes one space -/
 def collapseAux : (inRun : Bool) → Bytes → Bytes
@@ -163,7 +207,12 @@ structure Opened where
   deriving Repr, DecidableEq
 
 /-- `Armor62OpenWithValidation` / the dearmoring front of every `Dearmor62…`
-    entry point, for a source that delivers `text` and then a clean EOF. -/
+    entry point, for a source that delivers `text` and then a clean EOF.
+    Only the distinction ok / error (and, on success, the result) is meant to
+    agree with the implementation: the error KIND reported here is not in every
+    case the one Go returns (the streaming decoder interleaves the frame, body
+    and trailer checks differently, so a text with several defects may be
+    rejected for another one first); C11 and C13 use ok-versus-error only. -/
 def openPure (p : Params) (expect : Expect) (text : Bytes) : Except Err Opened :=
   match splitAt1 period text with
   | none => .error (if text.length ≥ frameLim then .overflow else .unexpectedEOF)
